@@ -570,24 +570,22 @@ Proof.
   destruct st; cbn. repeat split. eapply Hlen; [|exact Eu]. intros a. eexists. reflexivity.
 Qed.
 
-(* ------------------------------------------------------------------ F31: a refusal overwritten *)
+(* ------------------------------------------------------------------ F31 (fixed): a refusal is not overwritten *)
 (* History level: "a client's own resize request is answered with success or the refusal code".
-   The per-step facts ([setdesktop_refusal_sent]: the very next update carries the refusal) do not give it:
-   between the refusal and that update another client's request can be accepted, and the loop that
-   tells the other clients "somebody else asked" (rfbserver.c:3134-3143) also overwrites the reason of
-   the client whose own answer is still pending.  Witness: two ExtendedDesktopSize clients, client 0 is
-   refused with status 3, client 1 is accepted, client 0's next update says
-   reason 2 (other client) / status 3: its own request is never answered. *)
+   Between the refusal and the update that carries it another client's request can be accepted; since
+   fix_C16_4 the loop that tells the other clients "somebody else asked" (rfbserver.c:3134-3143) skips a
+   client whose own answer is still pending ([own_request_survives]).  The former witness: two
+   ExtendedDesktopSize clients, client 0 is refused with status 3, client 1 is accepted, client 0's next
+   update says reason 1 (this client) / status 3. *)
 Definition f31_ops : list op :=
   [OpSetCursor None; OpAddClient; OpAddClient;
    OpSetEncodings 0 false true false true; OpSetEncodings 1 false true false true;
    OpRequest 0 false 0 0 12 8; OpTick 0; OpRequest 1 false 0 0 12 8; OpTick 1; OpTick 0; OpTick 1;
    OpSetDesktopSize 0 20 10 1 3; OpSetDesktopSize 1 20 10 1 0; OpRequest 0 true 0 0 12 8].
 
-Lemma refusal_answered_refuted :
+Lemma refusal_answered_witness :
   exists st st', run (init_state 12 8 4) f31_ops = Some st /\ Inv st /\
-    step st (OpTick 0) = Some (st', [(0%nat, (1, [WExt c16_reason_other 3 12 8]))]) /\
-    c16_reason_other <> c16_reason_client.
+    step st (OpTick 0) = Some (st', [(0%nat, (1, [WExt c16_reason_client 3 12 8]))]).
 Proof.
   destruct (run (init_state 12 8 4) f31_ops) as [st|] eqn:E; [|vm_compute in E; discriminate].
   assert (HI : Inv st).
@@ -598,6 +596,5 @@ Proof.
                     intros st' out Hs; vm_compute in Hs; inversion Hs; subst; clear Hs]).
     exact Logic.I. }
   vm_compute in E. inversion E; subst. clear E.
-  eexists. eexists. split; [reflexivity|]. split; [exact HI|]. split; [vm_compute; reflexivity|].
-  vm_compute. discriminate.
+  eexists. eexists. split; [reflexivity|]. split; [exact HI|]. vm_compute. reflexivity.
 Qed.
